@@ -96,147 +96,163 @@ func C20(tier string) int {
 			clocks = append(clocks, t)
 		}
 	}
-	// all item sequences
-	var seqsI [][]int
-	var gen func(cur []int)
-	gen = func(cur []int) {
-		seqsI = append(seqsI, append([]int(nil), cur...))
-		if len(cur) == maxLen {
-			return
-		}
-		for i := range pageAlphabet {
-			gen(append(cur, i))
-		}
+	// ids that differ from one another in exactly one URL component: all distinct, none is a duplicate
+	nearBase := "https://r1.example/a/A"
+	nearAlphabet := []pageItem{{"base", nearBase, nearBase}}
+	for _, v := range []struct{ n, id string }{{"other-host", "https://r2.example/a/A"}, {"other-scheme", "http://r1.example/a/A"}, {"fragment", nearBase + "#x"},
+		{"query", nearBase + "?v=2"}, {"port", "https://r1.example:8443/a/A"}, {"trailing-slash", nearBase + "/"}, {"path-case", "https://r1.example/a/a"}, {"sub-path", nearBase + "/A"}} {
+		nearAlphabet = append(nearAlphabet, pageItem{v.n, v.id, v.id})
 	}
-	gen(nil)
-	res.Rule = fmt.Sprintf("ordered-collection pages whose items are every sequence of length 0..%d over {IRI a, IRI b, embedded Note a, embedded Note b, embedded Create a, embedded value without id} (%d pages) served through GetInbox and GetOutbox; handler values of every vocabulary type, Tombstone, missing value, Get error; %d clock instants at second/day/year boundaries in 5 time zones; oracle: body JSON-equal to the supplied value with (inbox) later duplicates of an id removed and order kept, Content-Type constant, Date = clock in RFC 7231 GMT form, Digest = base64 SHA-256 of the bytes written, 410 for a Tombstone, ErrNotFound with nothing written for a missing value; non-trivial = pages with at least one duplicate id or a handler value", maxLen, len(seqsI), len(clocks))
-	var mu sync.Mutex
-	chunk := 400
-	parallel((len(seqsI)+chunk-1)/chunk, func(ci int) {
-		lo, hi := ci*chunk, (ci+1)*chunk
-		if hi > len(seqsI) {
-			hi = len(seqsI)
-		}
-		type viol struct {
-			key, what string
-			rep       M
-		}
-		var vs []viol
-		classes := map[string]struct{}{}
-		outc := map[string]int{}
-		evals := 0
-		for si, seq := range seqsI[lo:hi] {
-			items := L{}
-			var names []string
-			hasNoID := false
-			for _, i := range seq {
-				items = append(items, pageAlphabet[i].v)
-				names = append(names, pageAlphabet[i].name)
-				if pageAlphabet[i].id == "" {
-					hasNoID = true
-				}
+	nearAlphabet = append(nearAlphabet, pageItem{"embedded-other-host", M{"type": "Note", "id": "https://r2.example/a/A", "content": "r2"}, "https://r2.example/a/A"},
+		pageItem{"embedded-base", M{"type": "Note", "id": nearBase, "content": "r1"}, nearBase})
+	totalPages := 0
+	runPages := func(pageAlphabet []pageItem, maxLen int) {
+		// all item sequences
+		var seqsI [][]int
+		var gen func(cur []int)
+		gen = func(cur []int) {
+			seqsI = append(seqsI, append([]int(nil), cur...))
+			if len(cur) == maxLen {
+				return
 			}
-			for _, entry := range []string{"GetInbox", "GetOutbox"} {
-				box := inbox(Alice)
-				if entry == "GetOutbox" {
-					box = outbox(Alice)
-				}
-				pageDoc := Doc("OrderedCollectionPage", box, "partOf", box+"?all")
-				if len(items) > 0 {
-					pageDoc["orderedItems"] = items
-				}
-				now := clocks[(lo+si)%len(clocks)]
-				sc := &Scenario{Name: fmt.Sprintf("%s items=%v", entry, names), Kind: ap.Both, Entry: entry, URL: box, Tweak: func(a *ap.App) {
-					a.Now = now
-					a.ServePage = func(iri string) (vocab.ActivityStreamsOrderedCollectionPage, error) {
-						t, err := ap.Decode(ap.MustJSON(pageDoc))
-						if err != nil {
-							return nil, err
-						}
-						return t.(vocab.ActivityStreamsOrderedCollectionPage), nil
-					}
-				}}
-				out := sc.Exec(mc.NewExec(nil), false)
-				evals++
-				rep := M{"check": "C20", "entry": entry, "items": names}
-				bad := func(kind, what string) {
-					vs = append(vs, viol{kind + "|" + entry, sc.Name + ": " + what, rep})
-				}
-				if out.Panic != nil {
-					outc["panic(C11)"]++
-					continue
-				}
-				// expected items
-				var want L
-				seen := map[string]bool{}
-				dup := false
+			for i := range pageAlphabet {
+				gen(append(cur, i))
+			}
+		}
+		gen(nil)
+		totalPages += len(seqsI)
+		res.Rule = fmt.Sprintf("ordered-collection pages whose items are every sequence of length 0..%d over {IRI a, IRI b, embedded Note a, embedded Note b, embedded Create a, embedded value without id} (%d pages), and every sequence of length 0..3 over 11 items whose ids differ in exactly one URL component (host, scheme, fragment, query, port, trailing slash, case, sub-path; IRI and embedded), served through GetInbox and GetOutbox; handler values of every vocabulary type, Tombstone, missing value, Get error; %d clock instants at second/day/year boundaries in 5 time zones; oracle: body JSON-equal to the supplied value with (inbox) later duplicates of an id removed and order kept, Content-Type constant, Date = clock in RFC 7231 GMT form, Digest = base64 SHA-256 of the bytes written, 410 for a Tombstone, ErrNotFound with nothing written for a missing value; non-trivial = pages with at least one duplicate id or a handler value", maxLen, len(seqsI), len(clocks))
+		var mu sync.Mutex
+		chunk := 400
+		parallel((len(seqsI)+chunk-1)/chunk, func(ci int) {
+			lo, hi := ci*chunk, (ci+1)*chunk
+			if hi > len(seqsI) {
+				hi = len(seqsI)
+			}
+			type viol struct {
+				key, what string
+				rep       M
+			}
+			var vs []viol
+			classes := map[string]struct{}{}
+			outc := map[string]int{}
+			evals := 0
+			for si, seq := range seqsI[lo:hi] {
+				items := L{}
+				var names []string
+				hasNoID := false
 				for _, i := range seq {
-					it := pageAlphabet[i]
-					if entry == "GetInbox" {
-						if seen[it.id] {
-							dup = true
-							continue
+					items = append(items, pageAlphabet[i].v)
+					names = append(names, pageAlphabet[i].name)
+					if pageAlphabet[i].id == "" {
+						hasNoID = true
+					}
+				}
+				for _, entry := range []string{"GetInbox", "GetOutbox"} {
+					box := inbox(Alice)
+					if entry == "GetOutbox" {
+						box = outbox(Alice)
+					}
+					pageDoc := Doc("OrderedCollectionPage", box, "partOf", box+"?all")
+					if len(items) > 0 {
+						pageDoc["orderedItems"] = items
+					}
+					now := clocks[(lo+si)%len(clocks)]
+					sc := &Scenario{Name: fmt.Sprintf("%s items=%v", entry, names), Kind: ap.Both, Entry: entry, URL: box, Tweak: func(a *ap.App) {
+						a.Now = now
+						a.ServePage = func(iri string) (vocab.ActivityStreamsOrderedCollectionPage, error) {
+							t, err := ap.Decode(ap.MustJSON(pageDoc))
+							if err != nil {
+								return nil, err
+							}
+							return t.(vocab.ActivityStreamsOrderedCollectionPage), nil
 						}
-						seen[it.id] = true
+					}}
+					out := sc.Exec(mc.NewExec(nil), false)
+					evals++
+					rep := M{"check": "C20", "entry": entry, "items": names}
+					bad := func(kind, what string) {
+						vs = append(vs, viol{kind + "|" + entry, sc.Name + ": " + what, rep})
 					}
-					want = append(want, it.v)
-				}
-				if dup {
-					classes[sc.Name] = struct{}{}
-				}
-				if entry == "GetInbox" && hasNoID {
-					if out.Err == nil || out.W.Wrote() {
-						bad("element-without-id-served", fmt.Sprintf("a page element without id must yield an error and nothing written; err=%v statuses=%v", out.Err, out.W.Statuses))
+					if out.Panic != nil {
+						outc["panic(C11)"]++
+						continue
 					}
-					outc["error-no-id"]++
-					continue
-				}
-				if out.Err != nil || !out.Handled {
-					bad("serve-failed", fmt.Sprintf("err=%v handled=%v", out.Err, out.Handled))
-					continue
-				}
-				outc["served"]++
-				if len(out.W.Statuses) != 1 || out.W.Statuses[0] != 200 {
-					bad("status", fmt.Sprint(out.W.Statuses))
-				}
-				if msg := headersOK(out.W, now); msg != "" {
-					bad("header|"+strings.SplitN(msg, " ", 2)[0], msg)
-				}
-				var got map[string]interface{}
-				if err := json.Unmarshal(out.W.Body(), &got); err != nil {
-					bad("body-not-json", err.Error())
-					continue
-				}
-				exp := map[string]interface{}{}
-				json.Unmarshal(ap.MustJSON(pageDoc), &exp)
-				delete(exp, "orderedItems")
-				if len(want) == 1 {
-					exp["orderedItems"] = deepCopy(want[0])
-				} else if len(want) > 1 {
-					exp["orderedItems"] = deepCopy(want)
-				}
-				if !jsonEqualModCtx(exp, got) {
-					kind := "body-differs"
-					if entry == "GetInbox" && dup {
-						kind = "dedupe-wrong"
+					// expected items
+					var want L
+					seen := map[string]bool{}
+					dup := false
+					for _, i := range seq {
+						it := pageAlphabet[i]
+						if entry == "GetInbox" {
+							if seen[it.id] {
+								dup = true
+								continue
+							}
+							seen[it.id] = true
+						}
+						want = append(want, it.v)
 					}
-					bad(kind, fmt.Sprintf("served %s, expected %s", shortJSON(got["orderedItems"]), shortJSON(exp["orderedItems"])))
+					if dup {
+						classes[sc.Name] = struct{}{}
+					}
+					if entry == "GetInbox" && hasNoID {
+						if out.Err == nil || out.W.Wrote() {
+							bad("element-without-id-served", fmt.Sprintf("a page element without id must yield an error and nothing written; err=%v statuses=%v", out.Err, out.W.Statuses))
+						}
+						outc["error-no-id"]++
+						continue
+					}
+					if out.Err != nil || !out.Handled {
+						bad("serve-failed", fmt.Sprintf("err=%v handled=%v", out.Err, out.Handled))
+						continue
+					}
+					outc["served"]++
+					if len(out.W.Statuses) != 1 || out.W.Statuses[0] != 200 {
+						bad("status", fmt.Sprint(out.W.Statuses))
+					}
+					if msg := headersOK(out.W, now); msg != "" {
+						bad("header|"+strings.SplitN(msg, " ", 2)[0], msg)
+					}
+					var got map[string]interface{}
+					if err := json.Unmarshal(out.W.Body(), &got); err != nil {
+						bad("body-not-json", err.Error())
+						continue
+					}
+					exp := map[string]interface{}{}
+					json.Unmarshal(ap.MustJSON(pageDoc), &exp)
+					delete(exp, "orderedItems")
+					if len(want) == 1 {
+						exp["orderedItems"] = deepCopy(want[0])
+					} else if len(want) > 1 {
+						exp["orderedItems"] = deepCopy(want)
+					}
+					if !jsonEqualModCtx(exp, got) {
+						kind := "body-differs"
+						if entry == "GetInbox" && dup {
+							kind = "dedupe-wrong"
+						}
+						bad(kind, fmt.Sprintf("served %s, expected %s", shortJSON(got["orderedItems"]), shortJSON(exp["orderedItems"])))
+					}
 				}
 			}
-		}
-		mu.Lock()
-		defer mu.Unlock()
-		res.Evaluations += evals
-		for k := range classes {
-			res.Nontrivial[k] = struct{}{}
-		}
-		for k, v := range outc {
-			res.Outcomes[k] += v
-		}
-		for _, v := range vs {
-			res.Violate(v.key, v.what, v.rep)
-		}
-	})
+			mu.Lock()
+			defer mu.Unlock()
+			res.Evaluations += evals
+			for k := range classes {
+				res.Nontrivial[k] = struct{}{}
+			}
+			for k, v := range outc {
+				res.Outcomes[k] += v
+			}
+			for _, v := range vs {
+				res.Violate(v.key, v.what, v.rep)
+			}
+		})
+	}
+	runPages(nearAlphabet, 3)
+	runPages(pageAlphabet, maxLen)
+	res.Extra["pages"] = totalPages
 	res.Sample(M{"entry": "GetInbox", "items": []string{"iriA", "noteB", "createA", "iriB", "noteA"}, "expected_served": []string{"iriA", "noteB", "iriB"}})
 
 	// ---- handler: values of every type ----
@@ -383,7 +399,6 @@ func C20(tier string) int {
 			res.Violate("handler-get-error-swallowed", sc.Name+": nil error", M{"check": "C20", "variant": variant})
 		}
 	}
-	res.Extra["pages"] = len(seqsI)
 	res.Extra["clock_instants"] = len(clocks)
 	return res.Finish()
 }
